@@ -556,7 +556,9 @@ func (f *Frame) contractCall(c *ssa.CallCommon, ct *FuncContract, callee *ssa.Fu
 		ghostNames[g.Name] = true
 	}
 	envPre := f.contractEnv(ct, bind, f.st, f.st)
-	frameOnly := ex.top != nil && ex.top.FrameOnly
+	// a function that makes no claim about panics (frame_only / may_panic) does not owe its callees'
+	// preconditions: their guarantees are then assumed only where those preconditions hold
+	frameOnly := ex.top != nil && (ex.top.FrameOnly || ex.top.MayPanic)
 	preHolds := "true"
 	for _, r := range ct.Requires {
 		if mentions(r.Term, ghostNames) {
